@@ -136,6 +136,8 @@ ob("O-C20-epoch", ["C20", "C05"], S, "c20_epoch_to_timestamp", "epoch_to_timesta
 ob("O-C20-iso", ["C20", "C05"], S, "c20_to_iso8601", "to_iso8601: machine integers are passed to jiff unchanged as whole seconds; other numbers as for epoch_to_timestamp", [TIME + "to_iso8601"], kind="trait-contract", stubs=["from_microsecond", "from_second", "fmt::format"],
    inlang={"inputs": ["AnyVal"], "filter": "$a|todate", "expect": "error_if_nonfinite", "doc": "a = the number of the counterexample"})
 ob("O-C20-back", ["C20"], S, "c20_timestamp_to_epoch", "timestamp_to_epoch: whole seconds come back as the exact machine integer, fractional instants as microseconds / 10^6", [TIME + "timestamp_to_epoch"], kind="trait-contract", stubs=["as_second", "as_microsecond"], solver="cvc5")
+ob("O-C20-mktime-frac", ["C20"], S, "c20_mktime_fraction", "mktime: for every instant jiff can report (seconds and SIGNED sub-second nanoseconds, before and after 1970) an integer answer is given only when the instant has no microsecond fraction; otherwise the answer is the fractional one of timestamp_to_epoch - `gmtime | mktime` returns the original instant on both sides of the epoch (array_to_datetime, under O-C20-array / -seconds, and jiff's to_zoned replaced by constant stubs)", [TIME + "mktime", TIME + "timestamp_to_epoch"], kind="trait-contract", stubs=["array_to_datetime", "DateTime::to_zoned", "Zoned::timestamp", "Timestamp::subsec_nanosecond", "as_second", "as_microsecond", "fmt::format"],
+   inlang={"inputs": [], "filter": "[-0.5, -1.5, -86400.25, 1.5, -2, 0] | map(gmtime | mktime) == [-0.5, -1.5, -86400.25, 1.5, -2, 0]", "expect": "true", "doc": "fixed filter: fractional instants before 1970 through gmtime | mktime"})
 ob("O-C20-array", ["C20", "C05"], S, "c20_array_fields", "array_to_datetime: DateTime::new receives exactly (year, month + 1, day, hour, minute) as mathematical integers whenever it is called; a field that is not a machine integer or does not fit its range gives None - never a wrapped or saturated value, never a panic", [TIME + "array_to_datetime"], kind="trait-contract", stubs=["DateTime::new"],
    inlang={"inputs": ["[AnyVal; 6]"], "spread": True, "filter": "[$a,$b,$c,$d,$e,0]|mktime", "expect": "no_panic", "doc": "a..e = year, month, day, hour, minute of the counterexample"})
 ob("O-C20-array-short", ["C20", "C05"], S, "c20_array_short", "array_to_datetime: arrays with fewer than 6 elements are rejected without calling jiff", [TIME + "array_to_datetime"], kind="trait-contract", label="bounded", bound="arrays of length 0..5")
